@@ -9,7 +9,7 @@ from ..core import driver
 from ..core.explore import Check
 from ..lang import refint
 
-PAYLOADS = ["int", "str", "list", "obj"]
+PAYLOADS = ["int", "str", "list", "obj", "bool"]      # bool: the present value is `false` (a present optional that is falsy is still present)
 CARRIERS = ["var", "param", "result", "elem", "field", "builtin", "literal", "mapentry"]
 CONSTRUCTS = ["eqnil", "neqnil", "get", "or", "or-var", "or-chain", "unwrap-stmt", "unwrap-if", "unwrap-while", "unwrap-expr",
               "eq-plain", "plain-eq", "or-operand",
@@ -21,7 +21,7 @@ CONSTRUCTS = ["eqnil", "neqnil", "get", "or", "or-var", "or-chain", "unwrap-stmt
 MINPAREN_CONSTRUCTS = {"or-operand"}     # rendered with minimal parentheses: the construct is about how `or` groups with its neighbours
 POSITIONS = ["same", "block", "loop", "else", "block2", "fn", "escaped"]
 
-TYPE = {"int": "int", "str": "str", "list": "[int...]", "obj": "C"}
+TYPE = {"int": "int", "str": "str", "list": "[int...]", "obj": "C", "bool": "bool"}
 
 
 def V(n):
@@ -33,6 +33,8 @@ def present(payload, alt=False):
         return ("int", 9 if alt else 5)
     if payload == "str":
         return ("str", "alt" if alt else "s")
+    if payload == "bool":
+        return ("bool", bool(alt))
     if payload == "list":
         return ("list", [("int", 8)] if alt else [("int", 1), ("int", 2)])
     return ("new", "C", [("int", 4 if alt else 3)])
@@ -307,6 +309,10 @@ class C12(Check):
                     bad("grouping", "the compiler accepts the program when `(x) or y` is wrapped in parentheses and rejects it when it stands as a bare right operand: "
                                     "the operator is applied to the optional itself, not to the value of `(x) or y`: " + res.out[-200:])
                     return {"outcome": "rejected-DIFF", "viol": viol, "nontrivial": True, "tags": [f"c-{case[3]}"]}
+            if case[3] in ("eq-plain", "plain-eq") and case[0] in ("int", "str", "bool"):
+                # `T == T` is an operation of the language for these payload types, so `T? == T` has to be one as well
+                bad("eq-rejected", "a present optional compares equal to the plain value it holds - the compiler refuses the comparison: " + res.out[-200:])
+                return {"outcome": "rejected-DIFF", "viol": viol, "nontrivial": True, "tags": [f"c-{case[3]}"]}
             return {"outcome": "rejected", "nontrivial": False, "tags": ["rejected", f"rej-{case[1]}-{case[3]}"],
                     "show": (res.out[-200:])}
         if res.cls in ("panic", "abort", "timeout") and "compiler/src" in res.err:
